@@ -32,6 +32,8 @@ type cell struct {
 	Required bool   `json:"required"`
 	Default  any    `json:"default,omitempty"`
 	Schema   M      `json:"schema"`
+	// Multi: an operation with several parameters p0..pn, driven together (the cell itself is unused)
+	Multi []cell `json:"multi,omitempty"`
 }
 
 func shapes() map[string]M {
@@ -99,8 +101,39 @@ func matrix() (M, []cell) {
 	add("query", "deepObject", true, "object", "map")
 	add("cookie", "form", false, append(append([]string{}, prims...), "strings", "ints", "object", "map")...)
 	add("cookie", "form", true, prims...)
+	// several parameters in one operation: encoders and decoders keep state per call, not per
+	// parameter, so what one parameter leaves behind must not reach the next (a seeded reuse of the
+	// array buffer of the query encoder was invisible while every operation had one parameter)
+	mc := func(loc, style string, explode bool, shape string, required bool) cell {
+		return cell{Loc: loc, Style: style, Explode: explode, Shape: shape, Required: required, Schema: sh[shape]}
+	}
+	multis := [][]cell{
+		{mc("query", "form", true, "strings", true), mc("query", "form", true, "strings", false), mc("query", "form", true, "ints", false), mc("query", "form", false, "strings", false)},
+		{mc("query", "form", true, "object", false), mc("query", "form", true, "strings", false), mc("query", "pipeDelimited", false, "strings", false), mc("query", "form", true, "string", false)},
+		{mc("query", "deepObject", true, "object", false), mc("query", "form", false, "object", false), mc("query", "form", false, "ints", true), mc("query", "form", false, "map", false)},
+		{mc("header", "simple", false, "strings", true), mc("header", "simple", true, "strings", false), mc("header", "simple", false, "ints", false), mc("header", "simple", true, "object", false)},
+		{mc("cookie", "form", false, "strings", true), mc("cookie", "form", false, "strings", false), mc("cookie", "form", false, "object", false), mc("cookie", "form", true, "string", false)},
+		{mc("path", "simple", false, "strings", true), mc("path", "label", true, "strings", true), mc("path", "matrix", true, "object", true), mc("path", "matrix", false, "ints", true)},
+		{mc("query", "form", true, "strings", false), mc("header", "simple", false, "strings", false), mc("cookie", "form", false, "strings", false), mc("path", "simple", false, "strings", true)},
+	}
+	for _, m := range multis {
+		cells = append(cells, cell{Multi: m})
+	}
 	paths := M{}
 	for i, c := range cells {
+		if c.Multi != nil {
+			path := fmt.Sprintf("/c%d", i)
+			var ps []any
+			for j, mcell := range c.Multi {
+				name := fmt.Sprintf("p%d", j)
+				ps = append(ps, M{"name": name, "in": mcell.Loc, "style": mcell.Style, "explode": mcell.Explode, "required": mcell.Required, "schema": mcell.Schema})
+				if mcell.Loc == "path" {
+					path += "/{" + name + "}"
+				}
+			}
+			paths[path] = M{"get": M{"operationId": fmt.Sprintf("c%d", i), "parameters": ps, "responses": M{"200": M{"description": "ok"}}}}
+			continue
+		}
 		p := M{"name": "p", "in": c.Loc, "style": c.Style, "explode": c.Explode, "required": c.Required, "schema": c.Schema}
 		path := fmt.Sprintf("/c%d", i)
 		if c.Loc == "path" {
